@@ -78,8 +78,9 @@ def feature_pattern(width: int):
 @st.composite
 def pit_masks(draw, spec, fixed=None, time_masks=True):
     """Draws {'g': {group: pattern}, 't': {node: [nb, t]}} for a NetSpec."""
-    sg = ng.searchable_groups(spec, fixed)
-    g = {rep: draw(feature_pattern(w)) for rep, w in sorted(sg.items())}
+    og = ng.owner_groups(spec, fixed)
+    # patterns are drawn for frozen groups too (they must be ignored by the implementation)
+    g = {rep: draw(feature_pattern(w)) for rep, (w, _fr) in sorted(og.items())}
     t = {}
     if time_masks:
         for n in spec['nodes']:
@@ -123,8 +124,9 @@ def apply_pit_masks(pit, spec, masks, vseed: int, fixed=None):
     return done
 
 
-def n_pruned(spec, masks) -> Dict[str, int]:
-    feat = sum(sum(1 for a in pat[:-1] if not a) for pat in masks['g'].values())
+def n_pruned(spec, masks, fixed=None) -> Dict[str, int]:
+    sg = ng.searchable_groups(spec, fixed)
+    feat = sum(sum(1 for a in pat[:-1] if not a) for g, pat in masks['g'].items() if g in sg)
     taps = 0
     for nid, (nb, t) in masks['t'].items():
         K = ng.node_by_id(spec, nid)['k']
